@@ -51,10 +51,12 @@ def lstr(s: str) -> str:
             out.append('\\"')
         elif ch == "\n":
             out.append("\\n")
+        elif ch == "\t":
+            out.append("\\t")
         elif 32 <= ord(ch) < 127:
             out.append(ch)
         else:
-            out.append("\\u{%x}" % ord(ch))
+            out.append("\\u%04x" % ord(ch) if ord(ch) < 0x10000 else ch)
     return '"' + "".join(out) + '"'
 
 
@@ -983,6 +985,9 @@ def gen_BdGrammar() -> None:
     out.append(f"def stringLiteralNonGreedy : Bool := {'true' if s_ng else 'false'}")
     out.append("/-- the quoted alternative of the INT_LITERAL regex stops at the first closing quote -/")
     out.append(f"def charLiteralNonGreedy : Bool := {'true' if c_ng else 'false'}\n")
+    # ---- single-character literals, ignored characters, and the regex rules probed by VALUE (what each rule's regex matches at
+    #      the start of a probe text, and what its action makes of the matched text) - a re-spelt regex gives the same table
+    out.append(_gen_lexer_probes(lcls, lenv, meta))
     meta["tokenText"] = toktext
     meta["stringLiteralRegex"] = string_rx
     meta["intLiteralRegex"] = int_rx
@@ -1010,6 +1015,134 @@ def gen_BdGrammar() -> None:
 
     out.append("end SpsdkVerif.Generated.BdGrammar")
     emit("BdGrammar", "\n".join(out) + "\n", meta)
+
+
+RULE_PROBES = {
+    "IDENT": ["abc", "_a1 b", "a-b", "9a", "Z", "a.b", "x9_y;", "-a", "a$", " a"],
+    "SECTION_NAME": ["$a", "$sec_[ab] x", "$math*;", "$", "$ a", "$.text", "$a-b^c?,", "$$", "a$b", "$a/b"],
+    "COMMENT": ["// x\ny", "# c", "#", "/* a */ b", "/* a \n b */c", "/* a", "/", "/*/ */", "/**/x", "//", "a//", "/ /", "#\n#"],
+    "newline": ["\n", "\n\n", " \n", "a"],
+}
+INT_PROBES = ["0", "7 ", "10;", "1K", "64K ", "1KB", "0x10", "0XfF,", "0x", "0xg", "08", "007", "000", "12ab", "1.5", "1_0", "0x1K",
+              "1k", "4096", "0xDEADbeef)", "'a'", "'dude' x", "''", "'a", "'a'b'", "9K9", "x1", "0b11", "1M", "1G"]
+BLOB_PROBES = ["{{aa bb}}", "{{ }}", "{{}}", "{{a}}", "{{aabb 1F3c}} x", "{{aa}", "{{a b}}", "{{aa  bb }}", "{{gg}}", "{a}", "{{AA}}}",
+               "{{ 0 1 }}"]
+SIZE_PROBES = ["1.b", "f.h", "F.w", "g.b", "1.x", "1 b", "..b", "9.w", "a.B", "_.b", "1,b", "A.h"]
+_SAFE_BUILTINS = {"int": int, "bytearray": bytearray, "bytes": bytes, "len": len, "str": str, "ord": ord, "list": list,
+                  "isinstance": isinstance, "range": range, "ValueError": ValueError}
+
+
+def _rule_regexes(lcls, lenv):
+    """regex of every rule written as a decorated method, by value"""
+    out = {}
+    for n in lcls.body:
+        if isinstance(n, ast.FunctionDef):
+            for d in n.decorator_list:
+                if isinstance(d, ast.Call) and d.args:
+                    try:
+                        v = lenv.eval(d.args[0], cls="BDLexer")
+                    except NotConst:
+                        v = None
+                    if isinstance(v, str):
+                        out[n.name] = (v, n)
+    return out
+
+
+def _run_action(fn_node, text):
+    """value a rule's action gives to the matched text (the method body run on a stand-in token); None where it raises"""
+    import copy
+    import types
+    fn = copy.deepcopy(fn_node)
+    fn.decorator_list = []
+    fn.returns = None
+    for a in fn.args.args + fn.args.kwonlyargs:
+        a.annotation = None
+    mod = ast.Module(body=[fn], type_ignores=[])
+    ast.fix_missing_locations(mod)
+    ns = {}
+    try:
+        exec(compile(mod, "<rule>", "exec"), {"__builtins__": dict(_SAFE_BUILTINS)}, ns)  # noqa: S102
+        tok = types.SimpleNamespace(value=text, type=fn.name)
+        r = ns[fn.name](types.SimpleNamespace(lineno=1, index=0), tok)
+        return None if r is None else r.value
+    except Exception:  # noqa: BLE001
+        return None
+
+
+def _match_len(rx, text, pos=0):
+    try:
+        m = re.compile(rx).match(text, pos)
+    except re.error:
+        return None
+    return None if m is None else m.end() - pos
+
+
+def _gen_lexer_probes(lcls, lenv, meta):
+    out = []
+    lits, ignore = [], ""
+    rules = {}
+    if lcls is not None and lenv is not None:
+        try:
+            lits = sorted(str(x) for x in lenv.cls("BDLexer").value("literals"))
+        except Exception as exc:  # noqa: BLE001
+            meta["literals_error"] = str(exc)
+        try:
+            ignore = str(lenv.cls("BDLexer").value("ignore"))
+        except Exception as exc:  # noqa: BLE001
+            meta["ignore_error"] = str(exc)
+        rules = _rule_regexes(lcls, lenv)
+    out.append("/-- `BDLexer.literals`: single characters that are their own token type (sorted) -/")
+    out.append("def literals : List String := [" + ", ".join(lstr(x) for x in lits) + "]")
+    out.append("/-- `BDLexer.ignore`: characters skipped between tokens (sorted) -/")
+    out.append("def ignoreChars : List String := [" + ", ".join(lstr(x) for x in sorted(set(ignore))) + "]\n")
+
+    def opt(v, f):
+        return "none" if v is None else f"some {f(v)}"
+    # rules without a value: (rule, probe text, length the regex matches at the start of the text)
+    rows = []
+    for rule in sorted(RULE_PROBES):
+        rx = rules.get(rule, (None, None))[0]
+        for t in RULE_PROBES[rule]:
+            ln = _match_len(rx, t) if rx is not None else None
+            rows.append(f"({lstr(rule)}, {lstr(t)}, {opt(ln, str)})")
+    out.append("/-- what the regex of a lexer rule matches at the start of a probe text (length; `none` = no match), computed by Python's "
+               "`re` from the CURRENT regex -/")
+    out.append("def ruleProbes : List (String × String × Option Nat) :=\n  [" + ",\n   ".join(rows) + "]\n")
+    # INT_LITERAL: matched length and the value the action computes (none = the action raises)
+    rx, fn = rules.get("INT_LITERAL", (None, None))
+    rows = []
+    for t in INT_PROBES:
+        ln = _match_len(rx, t) if rx is not None else None
+        if ln is None:
+            rows.append(f"({lstr(t)}, none)")
+        else:
+            v = _run_action(fn, t[:ln])
+            v = v if isinstance(v, int) and not isinstance(v, bool) and v >= 0 else None
+            rows.append(f"({lstr(t)}, some ({ln}, {opt(v, str)}))")
+    out.append("/-- INT_LITERAL: length matched at the start of the probe and the number the rule's action makes of it "
+               "(inner `none` = the action raises) -/")
+    out.append("def intLiteralProbes : List (String × Option (Nat × Option Nat)) :=\n  [" + ",\n   ".join(rows) + "]\n")
+    rx, fn = rules.get("BINARY_BLOB", (None, None))
+    rows = []
+    for t in BLOB_PROBES:
+        ln = _match_len(rx, t) if rx is not None else None
+        if ln is None:
+            rows.append(f"({lstr(t)}, none)")
+        else:
+            v = _run_action(fn, t[:ln])
+            rows.append(f"({lstr(t)}, some ({ln}, {lstr(v if isinstance(v, str) else '?')}))")
+    out.append("/-- BINARY_BLOB: length matched and the token value (hexadecimal digits) -/")
+    out.append("def blobProbes : List (String × Option (Nat × String)) :=\n  [" + ",\n   ".join(rows) + "]\n")
+    # INT_SIZE: three characters `p2 p1 c`; does the rule match at c (look-behind on p2 p1)?
+    rx = rules.get("INT_SIZE", (None, None))[0]
+    rows = []
+    for t in SIZE_PROBES:
+        ln = _match_len(rx, t, 2) if rx is not None else None
+        rows.append(f"({lstr(t)}, {'true' if ln == 1 else 'false'})")
+    out.append("/-- INT_SIZE: the rule tried at the third character of the probe (the first two are the look-behind context) -/")
+    out.append("def intSizeProbes : List (String × Bool) :=\n  [" + ", ".join(rows) + "]\n")
+    meta["lexerRules"] = {k: v[0] for k, v in sorted(rules.items())}
+    return "\n".join(out)
 
 
 def _first_quote_only(rx, q):
